@@ -169,7 +169,7 @@ func runC19(c *core.Ctx, bin, root string, sc c19Scenario) map[string]any {
 	env := []string{"VERIF_TRACE=" + trace, fmt.Sprintf("VERIF_SCHED_SEED=%d", sc.Seed), fmt.Sprintf("GOMAXPROCS=%d", sc.Procs), "GORACE=exitcode=0 halt_on_error=0"}
 	if sc.Schedule != nil {
 		b, _ := json.Marshal(sc.Schedule)
-		env = append(env, "VERIF_SCHEDULE="+string(b), "VERIF_GATE_TIMEOUT_MS=4000")
+		env = append(env, "VERIF_SCHEDULE="+string(b), "VERIF_GATE_TIMEOUT_MS=8000")
 	}
 	r := core.Run(core.RunOpts{Dir: dir, Timeout: 60 * time.Second, Env: env}, bin, append(append([]string{}, sc.Cmd...), rootFile)...)
 	evs, err := readHookTrace(trace)
@@ -439,7 +439,7 @@ func C19(c *core.Ctx) {
 	}
 	c.Add("forced_schedules_replayed", nForced)
 	c.Add("forced_schedules_abandoned", nAb)
-	if nForced > 0 && nAb*5 > nForced {
+	if nForced > 0 && nAb*2 > nForced {
 		c.Infra("directed replay: %d of %d forced schedules were abandoned (a scheduled step did not arrive within the gate timeout)", nAb, nForced)
 	}
 	phase("runs")
